@@ -16,7 +16,7 @@ from mc import wsh
 
 EVENTS = ["local_write_blocked", "peer_reset", "local_close", "local_close_code", "local_write", "peer_close_empty", "peer_close_1000",
           "peer_close_reason", "peer_close_bad_utf8", "peer_close_1byte", "peer_data", "peer_pong", "peer_eof",
-          "peer_half_frame_eof", "timer", "release", "tick"]
+          "peer_half_frame_eof", "timer", "release", "tick", "local_close_zero"]
 PEER_CLOSES = {"peer_close_empty": b"", "peer_close_1000": struct.pack("!H", 1000),
                "peer_close_reason": struct.pack("!H", 4000) + ("réason" + "x" * 116).encode(),    # 125 bytes: the largest legal close payload
                "peer_close_bad_utf8": struct.pack("!H", 4001) + b"\xff\xfe", "peer_close_1byte": b"\x03"}
@@ -103,6 +103,9 @@ def run(ch, role, pings, gated, depth, preamble=(), deflate=False, blockmode=Fal
                 elif ev == "local_close_code":
                     st["local_close"] += 1
                     res = local(lambda: target.close(1001, "bye"))
+                elif ev == "local_close_zero":
+                    st["local_close"] += 1
+                    res = local(lambda: target.close(0, "zero"))       # a code that is falsy is still a code
                 elif ev == "local_write":
                     res = local(lambda: target.write_message("w%d" % step))
                 elif ev == "local_write_blocked":
@@ -269,8 +272,9 @@ def judge(role, pings, o):
         if not close_frames:
             bad.append(("local-close-sent-no-frame", "close() on an open connection sent no close frame"))
         else:
-            want = b"" if evs[first_local] == "local_close" else struct.pack("!H", 1001)
-            if close_frames[0][1][:2] != want:
+            want = {"local_close": b"", "local_close_code": struct.pack("!H", 1001) + b"bye",
+                    "local_close_zero": struct.pack("!H", 0) + b"zero"}[evs[first_local]]
+            if close_frames[0][1] != want:
                 bad.append(("local-close-wrong-code", "close() sent payload %r, expected code %r" % (close_frames[0][1], want)))
     if anything_closing:
         if not o["closed"]:
